@@ -75,6 +75,11 @@ func c04Run(c *mon.Ctx, unit int) {
 			c.Count("generated schema rejected by Check (skipped)", 1)
 			c.Count(fmt.Sprintf("skipped: check code %d", built.check.Code), 1)
 			c.Sample(fmt.Sprintf("schema rejected by Check code %d", built.check.Code), map[string]any{"spec": sp, "error": built.check.String()})
+			if k%4 < 2 && !inType && model.NewOracle(s).Accepts(gen.ExampleVal(s.Root)) == model.Accept {
+				// scalar rule sets and plain shapes: the generator writes only legal rule
+				// combinations, and the independent oracle says the example obeys them all
+				c.Violate("legal", c04Case{Spec: sp}, "accept", built.check.String(), "Check refuses a schema whose examples obey all of its rules")
+			}
 			continue
 		}
 		key, _ := json.Marshal(sp)
@@ -472,6 +477,11 @@ func init() {
 					return "accept" // vacuous: Check no longer accepts the schema
 				}
 				return lib.Validate(cs.Spec, cs.Doc).Verdict()
+			},
+			"legal": func(raw json.RawMessage) string {
+				var cs c04Case
+				json.Unmarshal(raw, &cs)
+				return lib.Check(cs.Spec).Verdict()
 			},
 			"converse": func(raw json.RawMessage) string {
 				var cs c04Case
